@@ -43,7 +43,9 @@ def check_api(ctx, case):
     from ref import wire, interp
     plan = case['plan']
     try:
-        t = txplan.realise(plan)
+        # (digests are asked of inputs whose keys are known; inputs known by their address only come into play when the
+        # transaction is signed, below)
+        t = txplan.realise(plan, allow_keyless=False)
     except Exception as e:
         ctx.refusal('realise.%s' % type(e).__name__)
         ctx.note('last_realise_refusal', repr(e)[:200])
@@ -87,6 +89,9 @@ def check_api(ctx, case):
                 return
     # sign through the library, verify with the reference interpreter
     try:
+        if any(i.get('keyless') for i in plan['inputs']):
+            t = txplan.realise(plan)
+            ctx.klass('api.keyless_input')
         txplan.sign_history(t, plan)
         raw1 = t.raw()
     except Exception as e:
@@ -197,7 +202,7 @@ def check_history(ctx, case):
     from ref import wire, interp
     plan = case['plan']
     try:
-        t = txplan.realise(plan, with_private=True)
+        t = txplan.realise(plan, with_private=True, allow_keyless=False)
         t.sign()
         for k in range(len(plan['inputs'])):
             t.signature_hash(k, 1, t.inputs[k].witness_type)
@@ -294,8 +299,8 @@ def check_merge(ctx, case):
     from ref import wire, interp
     plan, plan2 = case['plan'], dict(case['plan2'], network=case['plan']['network'])
     try:
-        ta = txplan.realise(plan, with_private=True)
-        tb = txplan.realise(plan2, with_private=True)
+        ta = txplan.realise(plan, with_private=True, allow_keyless=False)
+        tb = txplan.realise(plan2, with_private=True, allow_keyless=False)
         ta.sign()
         tb.sign()
     except Exception as e:
